@@ -66,6 +66,18 @@ CLAIMS = {
                 text="Python slice/index normalisation transcribed in TLA+; TLC checks SliceLaws (conservation of total+under+over, indexed "
                      "values) and enumerates every slice, int, mask, index array (1D) and int/slice tuple (ND) for small shapes; all replayed",
                 technique="TLA+ specs HistPool (Slice/GetBin/Take), HistND (GetItem) + TLC; exhaustive replay of index expressions"),
+    "C04": dict(spec="PhystAdaptive", design="5/C04",
+                text="TLC checks NothingMissed, TightSpan, EqualsFixed, ContentsStayPut in index space (1-2 axes, empty or pre-filled); every "
+                     "history is replayed for 4-8 (width, shift) grids with values on the left edge / mid-bin / one ulp below the right edge of "
+                     "float-grid bin k; in the other direction random float programs (decimal literals such as 1.7 with width 0.1, edge "
+                     "neighbours, far values, data-derived fixed_width/pretty/integer binnings) are recorded and validated by TLC (TraceAdaptive)",
+                technique="TLA+ spec PhystAdaptive + TLC; lockstep replay AND trace validation of recorded executions (ndjson -> TLC)"),
+    "C19": dict(spec="PhystConfig", design="5/C19",
+                text="TLC explores all interleavings of 3 executions (threads or asyncio tasks) over Enter/Exit/Raise(k)/SetDirect/Spawn/Arith/"
+                     "Finish with invariants Isolation, Restored, NoCrossTalk; an edge cover of the state graph plus random behaviours is "
+                     "executed in the real runtime (baton-stepped threads, queue-stepped tasks, real nested with-blocks and exceptions), "
+                     "every running execution observing the switch after every step, for PHYST_FREE_ARITHMETICS unset/0/1",
+                technique="TLA+ interleaving model PhystConfig + TLC; behaviours of the state graph executed deterministically on real threads/tasks"),
 }
 
 PENDING = {}
